@@ -15,7 +15,7 @@
                                        whatever its bytes) and each copies exactly that segment's bytes to its memory/offset
     blob_offset_is_prefix_sum          in the external modes segment k is read at `ds + Σ_{j<k} |segment j|` (ALL earlier
                                        segments, passive ones included) and those blob bytes are the segment's bytes
-    passive_pointer_is_segment         `d<k> = ds + …` of a passive segment points at that segment's bytes
+    segment_pointer_is_segment         `d<k> = ds + …` (emitted for EVERY segment in the external modes) points at that segment's bytes
     alloc_pages_is_declared_minimum    `wasmMemoryAllocate`: pages = declared minimum for shared and non-shared memories
     new_memory_has_minimum_pages       the memory object a defined memory gets has `min` pages, shared or not
 -/
@@ -95,7 +95,7 @@ theorem segs_loads (mode : Mode) (d : ModDesc) : ∀ (rest pre : List DataSeg), 
     simp only [segsEmitted, List.filterMap_append]
     rw [hrec]
     cases hp : seg.passive <;> cases mode <;>
-      simp [segEmitted, hp, isExt, loadOf, harr, hslice, hfit]
+      simp [segEmitted, loadEmitted, hp, isExt, loadOf, harr, hslice, hfit, List.filterMap_cons]
 
 /-- In every mode the LOAD_DATA statements of the emitted InitMemories are, in module order, exactly one per ACTIVE data
     segment — no active segment is left out, whatever its bytes (all zero, empty, …), no passive one is loaded — and each
@@ -117,12 +117,14 @@ theorem segsEmitted_append (mode : Mode) : ∀ (pre rest : List DataSeg) (k off 
     simp only [List.cons_append, segsEmitted, ih, List.append_assoc, List.length_cons, bytesLen, List.flatMap_cons, List.length_append]
     congr 3 <;> omega
 
-/-- External modes (`-d gnu-ld`, `sectcreate1`, `sectcreate2`): the statement emitted for the active segment `seg` of
-    `d.datas = pre ++ seg :: post` is `LOAD_DATA(mem, offset, ds + Σ|pre|, |seg|)` — the sum runs over ALL earlier segments,
-    passive ones included — and the `|seg|` bytes of the `datasegments` blob at that offset are the segment's bytes. -/
+/-- External modes (`-d gnu-ld`, `sectcreate1`, `sectcreate2`): the statements emitted for the active segment `seg` of
+    `d.datas = pre ++ seg :: post` are `d<|pre|> = ds + Σ|pre|;` and `LOAD_DATA(mem, offset, ds + Σ|pre|, |seg|);` — the sum runs over
+    ALL earlier segments, passive ones included — and the `|seg|` bytes of the `datasegments` blob at that offset are the
+    segment's bytes. -/
 theorem blob_offset_is_prefix_sum (mode : Mode) (hm : mode ≠ .arrays) (d : ModDesc) (pre : List DataSeg) (seg : DataSeg)
     (post : List DataSeg) (hd : d.datas = pre ++ seg :: post) (hp : seg.passive = false) :
     emittedOf mode d = memsEmitted d.memImports d.memShared 0 d.mems ++ segsEmitted mode 0 0 pre ++
+        Emitted.ptrInit pre.length ((pre.map (·.bytes.length)).sum) ::
         Emitted.loadBlob seg.mem seg.offset ((pre.map (·.bytes.length)).sum) seg.bytes.length ::
         segsEmitted mode (pre.length + 1) ((pre.map (·.bytes.length)).sum + seg.bytes.length) post ∧
     (((sourcesOf mode d).blob.drop ((pre.map (·.bytes.length)).sum)).take seg.bytes.length) = seg.bytes := by
@@ -135,21 +137,21 @@ theorem blob_offset_is_prefix_sum (mode : Mode) (hm : mode ≠ .arrays) (d : Mod
   constructor
   · unfold emittedOf
     rw [hd, segsEmitted_append]
-    simp only [segsEmitted, segEmitted, hp, hext, Nat.zero_add, hsum, List.append_assoc]
+    simp only [segsEmitted, segEmitted, loadEmitted, hp, hext, Nat.zero_add, hsum, List.append_assoc]
     rfl
   · have hblob : (sourcesOf mode d).blob = pre.flatMap (·.bytes) ++ seg.bytes ++ post.flatMap (·.bytes) := by
       simp [sourcesOf, blobOf_gen, hd, List.flatMap_append, List.flatMap_cons]
     rw [← hsum, hblob]
     exact drop_take_mid _ _ _
 
-/-- External modes: the pointer variable of the passive segment `seg` of `d.datas = pre ++ seg :: post` is set to
-    `ds + Σ|pre|`, and the `|seg|` bytes there are the segment's bytes (what `memory.init` will copy); in arrays mode `d<k>` is the
-    array holding exactly the segment's bytes. -/
-theorem passive_pointer_is_segment (mode : Mode) (d : ModDesc) (pre : List DataSeg) (seg : DataSeg) (post : List DataSeg)
+/-- External modes: the pointer variable of EVERY segment `seg` of `d.datas = pre ++ seg :: post` (passive or active: `memory.init` may
+    name either) is set to `ds + Σ|pre|`, and the `|seg|` bytes there are the segment's bytes (what `memory.init` will copy); in
+    arrays mode `d<k>` is the array holding exactly the segment's bytes. -/
+theorem segment_pointer_is_segment (mode : Mode) (d : ModDesc) (pre : List DataSeg) (seg : DataSeg) (post : List DataSeg)
     (hd : d.datas = pre ++ seg :: post) :
     ptrTarget (sourcesOf mode d) (bytesLen pre) seg.bytes.length = some seg.bytes ∧
     ((sourcesOf mode d).arrays[pre.length]?).join = some seg.bytes ∧
-    (seg.passive = true → mode ≠ .arrays → Emitted.ptrInit pre.length (bytesLen pre) ∈ emittedOf mode d) := by
+    (mode ≠ .arrays → Emitted.ptrInit pre.length (bytesLen pre) ∈ emittedOf mode d) := by
   have hblob : (sourcesOf mode d).blob = pre.flatMap (·.bytes) ++ seg.bytes ++ post.flatMap (·.bytes) := by
     simp [sourcesOf, blobOf_gen, hd, List.flatMap_append, List.flatMap_cons]
   refine ⟨?_, by simp [sourcesOf, arraysOf_gen, hd], ?_⟩
@@ -157,11 +159,11 @@ theorem passive_pointer_is_segment (mode : Mode) (d : ModDesc) (pre : List DataS
     have hfit : bytesLen pre + seg.bytes.length ≤ (sourcesOf mode d).blob.length := by rw [hblob]; simp [bytesLen]
     simp only [hfit, ↓reduceIte, Option.some.injEq]
     rw [hblob]; exact drop_take_mid _ _ _
-  · intro hp hm
+  · intro hm
     have hext : isExt mode = true := by cases mode <;> simp_all [isExt]
     unfold emittedOf
     rw [hd, segsEmitted_append]
-    simp [segsEmitted, segEmitted, hp, hext]
+    simp [segsEmitted, segEmitted, hext]
 
 /-! ## allocation -/
 
@@ -201,8 +203,8 @@ def demoD : ModDesc :=
               ⟨false, 1, .const 0, [5]⟩] }
 
 example : emittedOf .gnuld demoD =
-    [.alloc 1 1 2, .allocShared 2 1 4, .loadBlob 0 (.const 1) 0 3, .ptrInit 1 3, .loadBlob 0 (.const 2) 5 2, .loadBlob 1 (.const 7) 7 0,
-     .loadBlob 1 (.const 0) 7 1] := by decide
+    [.alloc 1 1 2, .allocShared 2 1 4, .ptrInit 0 0, .loadBlob 0 (.const 1) 0 3, .ptrInit 1 3, .ptrInit 2 5, .loadBlob 0 (.const 2) 5 2,
+     .ptrInit 3 7, .loadBlob 1 (.const 7) 7 0, .ptrInit 4 7, .loadBlob 1 (.const 0) 7 1] := by decide
 example : emittedOf .arrays demoD =
     [.alloc 1 1 2, .allocShared 2 1 4, .loadArr 0 (.const 1) 0 3, .loadArr 0 (.const 2) 2 2, .loadArr 1 (.const 7) 3 0, .loadArr 1 (.const 0) 4 1] := by
   decide
